@@ -38,6 +38,10 @@ URI = {'a': 'a', 'E': '', 'K': '32=k', 'T': '65535=x', 'L': 'l' * 253,
 def comp_wire(tok):
     if isinstance(tok, str) and tok.startswith('G'):     # 'G<n>': generic component with an n-byte value
         return ts.tlv(8, b'g' * int(tok[1:]))
+    if isinstance(tok, str) and tok.startswith('X'):     # 'X<n>': n-byte value whose URI text is three times as long ('%F1' each)
+        return ts.tlv(8, b'\xf1' * int(tok[1:]))
+    if isinstance(tok, str) and tok.startswith('Y'):     # 'Y<n>': n plain bytes followed by one escaped byte
+        return ts.tlv(8, b'y' * int(tok[1:]) + b'\x00')
     t, v = COMP[tok]
     return ts.tlv(t, v)
 
@@ -45,6 +49,10 @@ def comp_wire(tok):
 def uri_of(tok):
     if tok.startswith('G'):
         return 'g' * int(tok[1:])
+    if tok.startswith('X'):
+        return '%F1' * int(tok[1:])
+    if tok.startswith('Y'):
+        return 'y' * int(tok[1:]) + '%00'
     return URI[tok]
 
 
@@ -108,6 +116,8 @@ def make_signer(spec, for_interest):
         return Sha256WithRsaSigner('/k/rsa/KEY/1', key_der('rsa2048_0'))
     if spec == 'ecdsa':
         return Sha256WithEcdsaSigner('/k/ec/KEY/1', key_der('ec256_0'))
+    if isinstance(spec, str) and spec.startswith('ecdsa:'):
+        return Sha256WithEcdsaSigner('/k/ec/KEY/1', key_der({'224': 'ec224_0', '384': 'ec384_0', '521': 'ec521_0'}[spec[6:]]))
     if spec == 'ed':
         return Ed25519Signer('/k/ed/KEY/1', key_der('ed25519_0'))
     if spec == 'null':
@@ -117,8 +127,9 @@ def make_signer(spec, for_interest):
     raise ValueError(spec)
 
 
-SIG_TYPE = {'digest': 0, 'hmac': 4, 'hmac:1': 4, 'hmac:63': 4, 'hmac:64': 4, 'hmac:65': 4, 'hmac:200': 4, 'rsa': 1, 'ecdsa': 3, 'ed': 5, 'null': 200}
-SIG_KEYNAME = {'hmac': '/k/hmac', 'hmac:1': '/k/hmac', 'hmac:63': '/k/hmac', 'hmac:64': '/k/hmac', 'hmac:65': '/k/hmac', 'hmac:200': '/k/hmac', 'rsa': '/k/rsa/KEY/1', 'ecdsa': '/k/ec/KEY/1', 'ed': '/k/ed/KEY/1'}
+SIG_TYPE = {'digest': 0, 'hmac': 4, 'hmac:1': 4, 'hmac:63': 4, 'hmac:64': 4, 'hmac:65': 4, 'hmac:200': 4, 'rsa': 1, 'ecdsa': 3, 'ecdsa:224': 3, 'ecdsa:384': 3, 'ecdsa:521': 3, 'ed': 5, 'null': 200}
+SIG_KEYNAME = {'hmac': '/k/hmac', 'hmac:1': '/k/hmac', 'hmac:63': '/k/hmac', 'hmac:64': '/k/hmac', 'hmac:65': '/k/hmac', 'hmac:200': '/k/hmac', 'rsa': '/k/rsa/KEY/1', 'ecdsa': '/k/ec/KEY/1', 'ecdsa:224': '/k/ec/KEY/1', 'ecdsa:384': '/k/ec/KEY/1',
+               'ecdsa:521': '/k/ec/KEY/1', 'ed': '/k/ed/KEY/1'}
 
 # -- parameter menus --------------------------------------------------------------------------------
 FH_MENU = [[], [['h']], [['h'], ['g', 'h2']]]
@@ -189,6 +200,13 @@ def space_name_lengths(tier):
                 for rep in (('list', 'uri') if n < 1000 else ('list', 'bytes')):
                     for plen, signer in ((None, 'none'), (1, 'none'), (None, 'digest'), (2, 'hmac')):
                         yield {'k': kind, 'name': toks, 'rep': rep, 'p': 'default', 'plen': plen, 'signer': signer}
+        # components given as text whose escaped form is longer than the value: text length and value length on different
+        # sides of 253
+        for tok in [f'X{n}' for n in list(range(82, 88)) + list(range(250, 256))] + [f'Y{n}' for n in range(247, 256)]:
+            for toks in ([tok], ['a', tok], [tok, 'a']):
+                for rep in ('uri', 'mixed', 'list'):
+                    for plen, signer in ((None, 'none'), (None, 'digest')):
+                        yield {'k': kind, 'name': toks, 'rep': rep, 'p': 'default', 'plen': plen, 'signer': signer}
 
 
 def space_full_sweep(tier):
@@ -217,6 +235,11 @@ def space_asym(tier):
                 yield {'k': kind, 'name': ['a', 'K'], 'rep': 'list', 'p': 'default', 'plen': plen, 'signer': 'ecdsa', 'it': it}
         for plen in (0, 1, 100, 65536):
             yield {'k': kind, 'name': ['a'], 'rep': 'uri', 'p': 'default', 'plen': plen, 'signer': 'rsa'}
+        # the other curves the signer accepts: the reserved signature size depends on the curve (P-521 is not a multiple of 8 bits)
+        for curve in ('224', '384', '521'):
+            for plen in (0, 90, 100, 110, 120, 252):
+                for it in range(8 if tier == 'quick' else 24):
+                    yield {'k': kind, 'name': ['a', 'K'], 'rep': 'list', 'p': 'default', 'plen': plen, 'signer': 'ecdsa:' + curve, 'it': it}
         for p in range(0, len(IPARAMS if kind == 'I' else METAS), 7):
             yield {'k': kind, 'name': ['a', 'P'] if kind == 'I' else ['a'], 'rep': 'list', 'p': p, 'plen': 3, 'signer': 'ecdsa', 'it': p}
 
@@ -431,8 +454,8 @@ def unit(arg):
             acc.state_count += 1
             acc.outcome(key)
             acc.notes['space:' + arg['space']] += 1
-            if info and case['signer'] == 'ecdsa':
-                acc.notes[f"ecdsa-der-shrink={info['shrink']}"] += 1
+            if info and isinstance(case['signer'], str) and case['signer'].startswith('ecdsa'):
+                acc.notes[f"{case['signer']}-der-shrink={info['shrink']}"] += 1
             if nontrivial:
                 acc.nontrivial += 1
             acc.observe([case, key, [v[0] for v in viol]])
